@@ -69,7 +69,7 @@ def engine_history(args):
     import gen_engine
     import impl_engine
     import logging as lg
-    g = gen_engine.Gen(seed, {"groups": 0.1})
+    g = gen_engine.Gen(seed, {"groups": 0.1, "inject_format": True})
     E = impl_engine.ImplEngine()
     lg.disable(lg.NOTSET)
     cap = Capture()
